@@ -92,96 +92,112 @@ def run(ck):
         except Exception as e:
             ck.fail("raises:build", "building the vibronic aggregate raised %r" % (e,), inp)
             continue
-        Ntot = agg.Ntot
-        states = ["%s:%s" % ("".join(str(x) for x in es), "".join(str(int(x)) for x in vs)) for (es, vs) in agg.vibsigs]
-        HH, DD, FC = numpy.array(agg.HH), numpy.array(agg.DD), numpy.array(agg.FCf)
-        anyshift = any(md["HR"] > 0 and (md["n0"] > 1 or md["n1"] > 1) for ms in spec for md in ms)
-        ck.case(("vib", str(spec), tuple(E), Jc), nontrivial=anyshift, nmol=nmol, modes=sum(len(x) for x in spec), Ntot=min(Ntot, 40) // 10 * 10,
-                sample=inp if h < 1 else None)
-        # ---- oracle: declared level counts and displaced-oscillator law -------------------------------------
-        for m in range(nmol):
-            for lev in (0, 1):
-                want = 1
-                for md in spec[m]:
-                    want *= md["n%d" % lev]
-                # states in which molecule m is at level lev and all others in the ground state
-                sig = tuple(lev if i == m else 0 for i in range(nmol))
-                others = 1
-                for i in range(nmol):
-                    if i != m:
-                        for md in spec[i]:
-                            others *= md["n0"]
-                cnt = sum(1 for (es, vs) in agg.vibsigs if tuple(es) == sig)
-                if cnt != want * others:
-                    ck.fail("level-count", "number of vibronic states of an electronic state is not the product of the declared level counts",
-                            dict(inp, molecule=m, level=lev), cnt, want * others)
-        # the shifts actually stored must be sqrt(2 HR) whatever the frequencies / call order
-        gmodes = []
-        for m in range(nmol):
-            for k, md in enumerate(spec[m]):
-                sm0, sm1 = mols[m].get_Mode(k).get_SubMode(0), mols[m].get_Mode(k).get_SubMode(1)
-                if abs(sm1.shift - math.sqrt(2 * md["HR"])) > 1e-12 or abs(mols[m].get_Mode(k).get_HR(1) - md["HR"]) > 1e-12:
-                    ck.fail("huang-rhys", "stored displacement is not sqrt(2 S) for the declared Huang-Rhys factor S", dict(inp, molecule=m, mode=k),
-                            float(sm1.shift), math.sqrt(2 * md["HR"]))
-                gmodes.append((m, k, sm0, sm1, md))
-                # Poisson law of the overlaps from the vibrational ground state
-                Dm = numpy.real(ops.shift_operator(sm0.shift - sm1.shift))
-                S = md["HR"]
-                for nq in range(6):
-                    p = math.exp(-S) * S ** nq / math.factorial(nq)
-                    if abs(Dm[0, nq] ** 2 - p) > 1e-8:
-                        ck.fail("poisson", "overlaps from the vibrational ground state are not Poissonian with mean S", dict(inp, S=S, n=nq),
-                                float(Dm[0, nq] ** 2), p)
-                        break
-                ck.resid("orthogonality of the 100-level overlap matrix", numpy.abs(Dm @ Dm.T - numpy.eye(Dm.shape[0])).max())
-                if numpy.abs(Dm @ Dm.T - numpy.eye(Dm.shape[0])).max() > 1e-9:
-                    ck.fail("orthogonality", "overlap matrix not orthogonal", dict(inp, S=S))
-        # ---- independent product structure ------------------------------------------------------------------
-        def fcf(a, b):
-            (e1, v1), (e2, v2) = agg.vibsigs[a], agg.vibsigs[b]
-            r = 1.0
-            for g, (m, k, sm0, sm1, md) in enumerate(gmodes):
-                s1 = (sm1 if e1[m] == 1 else sm0).shift
-                s2 = (sm1 if e2[m] == 1 else sm0).shift
-                r *= numpy.real(ops.shift_operator(s1 - s2))[int(v1[g]), int(v2[g])]
-            return r
-        bad = None
-        for a in range(Ntot):
-            for b in range(Ntot):
+        # phase 0: the aggregate as built; phase 1 (every third system with a mode): the Huang-Rhys factor of one mode is changed on
+        # the SAME objects and build() is called again - the second build must follow the current parameters
+        phases = [0, 1] if (h % 3 == 2 and any(spec)) else [0]
+        for phase in phases:
+            if phase == 1:
+                cand = [(m, k) for m in range(nmol) for k in range(len(spec[m]))]
+                m_, k_ = cand[rng.randrange(len(cand))]
+                newHR = rng.choice([x for x in (0.1, 0.5, 0.9, 1.3) if x != spec[m_][k_]["HR"]])
+                spec[m_][k_] = dict(spec[m_][k_], HR=newHR)
+                inp = dict(inp, modes=spec, second_build_after_set_HR=[m_, k_, newHR])
+                try:
+                    mols[m_].get_Mode(k_).set_HR(1, newHR)
+                    agg.build()
+                except Exception as e:
+                    ck.fail("raises:rebuild", "build() after set_HR raised %r" % (e,), inp)
+                    continue
+            Ntot = agg.Ntot
+            states = ["%s:%s" % ("".join(str(x) for x in es), "".join(str(int(x)) for x in vs)) for (es, vs) in agg.vibsigs]
+            HH, DD, FC = numpy.array(agg.HH), numpy.array(agg.DD), numpy.array(agg.FCf)
+            anyshift = any(md["HR"] > 0 and (md["n0"] > 1 or md["n1"] > 1) for ms in spec for md in ms)
+            ck.case(("vib", str(spec), tuple(E), Jc, phase), nontrivial=anyshift, second_build=(phase == 1), nmol=nmol, modes=sum(len(x) for x in spec), Ntot=min(Ntot, 40) // 10 * 10,
+                    sample=inp if h < 1 else None)
+            # ---- oracle: declared level counts and displaced-oscillator law -------------------------------------
+            for m in range(nmol):
+                for lev in (0, 1):
+                    want = 1
+                    for md in spec[m]:
+                        want *= md["n%d" % lev]
+                    # states in which molecule m is at level lev and all others in the ground state
+                    sig = tuple(lev if i == m else 0 for i in range(nmol))
+                    others = 1
+                    for i in range(nmol):
+                        if i != m:
+                            for md in spec[i]:
+                                others *= md["n0"]
+                    cnt = sum(1 for (es, vs) in agg.vibsigs if tuple(es) == sig)
+                    if cnt != want * others:
+                        ck.fail("level-count", "number of vibronic states of an electronic state is not the product of the declared level counts",
+                                dict(inp, molecule=m, level=lev), cnt, want * others)
+            # the shifts actually stored must be sqrt(2 HR) whatever the frequencies / call order
+            gmodes = []
+            for m in range(nmol):
+                for k, md in enumerate(spec[m]):
+                    sm0, sm1 = mols[m].get_Mode(k).get_SubMode(0), mols[m].get_Mode(k).get_SubMode(1)
+                    if abs(sm1.shift - math.sqrt(2 * md["HR"])) > 1e-12 or abs(mols[m].get_Mode(k).get_HR(1) - md["HR"]) > 1e-12:
+                        ck.fail("huang-rhys", "stored displacement is not sqrt(2 S) for the declared Huang-Rhys factor S", dict(inp, molecule=m, mode=k),
+                                float(sm1.shift), math.sqrt(2 * md["HR"]))
+                    gmodes.append((m, k, sm0, sm1, md))
+                    # Poisson law of the overlaps from the vibrational ground state
+                    Dm = numpy.real(ops.shift_operator(sm0.shift - sm1.shift))
+                    S = md["HR"]
+                    for nq in range(6):
+                        p = math.exp(-S) * S ** nq / math.factorial(nq)
+                        if abs(Dm[0, nq] ** 2 - p) > 1e-8:
+                            ck.fail("poisson", "overlaps from the vibrational ground state are not Poissonian with mean S", dict(inp, S=S, n=nq),
+                                    float(Dm[0, nq] ** 2), p)
+                            break
+                    ck.resid("orthogonality of the 100-level overlap matrix", numpy.abs(Dm @ Dm.T - numpy.eye(Dm.shape[0])).max())
+                    if numpy.abs(Dm @ Dm.T - numpy.eye(Dm.shape[0])).max() > 1e-9:
+                        ck.fail("orthogonality", "overlap matrix not orthogonal", dict(inp, S=S))
+            # ---- independent product structure ------------------------------------------------------------------
+            def fcf(a, b):
                 (e1, v1), (e2, v2) = agg.vibsigs[a], agg.vibsigs[b]
-                f = fcf(a, b)
-                if abs(FC[a, b] - f) > 1e-9:
-                    bad = ("FC", a, b, float(FC[a, b]), f)
-                diff = [i for i in range(nmol) if e1[i] != e2[i]]
-                wantD = numpy.array(D[diff[0]]) * f if len(diff) == 1 else numpy.zeros(3)
-                if numpy.abs(DD[a, b] - wantD).max() > 1e-9:
-                    bad = ("dipole", a, b, DD[a, b].tolist(), wantD.tolist())
-                if a != b:
-                    wantH = Jc * f if (nmol == 2 and sum(e1) == 1 and sum(e2) == 1 and tuple(e1) != tuple(e2)) else 0.0
-                    if abs(HH[a, b] - wantH) > 1e-9:
-                        bad = ("coupling", a, b, float(HH[a, b]), wantH)
-        if bad:
-            ck.fail("product:%s" % bad[0], "%s element between vibronic states is not the electronic quantity times the product of the modes' overlaps" % bad[0],
-                    dict(inp, states=[states[bad[1]], states[bad[2]]]), bad[3], bad[4])
-        # ---- model line ---------------------------------------------------------------------------------------
-        shifts = sorted(set(round(sm.shift, 15) for (_, _, sm0, sm1, _) in gmodes for sm in (sm0, sm1)))
-        L = max([1] + [max(md["n0"], md["n1"]) for ms in spec for md in ms])
-        fields = []
-        for (m, k, sm0, sm1, md) in gmodes:
-            for lev, sm in ((0, sm0), (1, sm1)):
-                fields += [str(int(sm.nmax)), str(shifts.index(round(sm.shift, 15))), frac(sm.omega)]
-        tabs = []
-        for sa in shifts:
-            for sb in shifts:
-                Mx = numpy.real(ops.shift_operator(sa - sb))[:L, :L]
-                tabs += [frac(x) for x in Mx.flatten()]
-        line = "vib %d %s %s %s %s %s %d %d %s" % (
-            nmol, " ".join(str(len(x)) for x in spec), " ".join(fields), " ".join(frac(e) for e in E),
-            " ".join(frac(Jc if i != j else 0.0) for i in range(nmol) for j in range(nmol)), " ".join(frac(D[k][0]) for k in range(nmol)),
-            L, len(shifts), " ".join(tabs))
-        lines.append(" ".join(line.split()))
-        impl.append("%d ; %s ; %s ; %s ; %s" % (Ntot, " ".join(states), " ".join(frac(x) for x in HH.flatten()),
-                                                  " ".join(frac(x) for x in DD[:, :, 0].flatten()), " ".join(frac(x) for x in FC.flatten())))
+                r = 1.0
+                for g, (m, k, sm0, sm1, md) in enumerate(gmodes):
+                    s1 = (sm1 if e1[m] == 1 else sm0).shift
+                    s2 = (sm1 if e2[m] == 1 else sm0).shift
+                    r *= numpy.real(ops.shift_operator(s1 - s2))[int(v1[g]), int(v2[g])]
+                return r
+            bad = None
+            for a in range(Ntot):
+                for b in range(Ntot):
+                    (e1, v1), (e2, v2) = agg.vibsigs[a], agg.vibsigs[b]
+                    f = fcf(a, b)
+                    if abs(FC[a, b] - f) > 1e-9:
+                        bad = ("FC", a, b, float(FC[a, b]), f)
+                    diff = [i for i in range(nmol) if e1[i] != e2[i]]
+                    wantD = numpy.array(D[diff[0]]) * f if len(diff) == 1 else numpy.zeros(3)
+                    if numpy.abs(DD[a, b] - wantD).max() > 1e-9:
+                        bad = ("dipole", a, b, DD[a, b].tolist(), wantD.tolist())
+                    if a != b:
+                        wantH = Jc * f if (nmol == 2 and sum(e1) == 1 and sum(e2) == 1 and tuple(e1) != tuple(e2)) else 0.0
+                        if abs(HH[a, b] - wantH) > 1e-9:
+                            bad = ("coupling", a, b, float(HH[a, b]), wantH)
+            if bad:
+                ck.fail("product:%s" % bad[0], "%s element between vibronic states is not the electronic quantity times the product of the modes' overlaps" % bad[0],
+                        dict(inp, states=[states[bad[1]], states[bad[2]]]), bad[3], bad[4])
+            # ---- model line ---------------------------------------------------------------------------------------
+            shifts = sorted(set(round(sm.shift, 15) for (_, _, sm0, sm1, _) in gmodes for sm in (sm0, sm1)))
+            L = max([1] + [max(md["n0"], md["n1"]) for ms in spec for md in ms])
+            fields = []
+            for (m, k, sm0, sm1, md) in gmodes:
+                for lev, sm in ((0, sm0), (1, sm1)):
+                    fields += [str(int(sm.nmax)), str(shifts.index(round(sm.shift, 15))), frac(sm.omega)]
+            tabs = []
+            for sa in shifts:
+                for sb in shifts:
+                    Mx = numpy.real(ops.shift_operator(sa - sb))[:L, :L]
+                    tabs += [frac(x) for x in Mx.flatten()]
+            line = "vib %d %s %s %s %s %s %d %d %s" % (
+                nmol, " ".join(str(len(x)) for x in spec), " ".join(fields), " ".join(frac(e) for e in E),
+                " ".join(frac(Jc if i != j else 0.0) for i in range(nmol) for j in range(nmol)), " ".join(frac(D[k][0]) for k in range(nmol)),
+                L, len(shifts), " ".join(tabs))
+            lines.append(" ".join(line.split()))
+            impl.append("%d ; %s ; %s ; %s ; %s" % (Ntot, " ".join(states), " ".join(frac(x) for x in HH.flatten()),
+                                                      " ".join(frac(x) for x in DD[:, :, 0].flatten()), " ".join(frac(x) for x in FC.flatten())))
     model = ck.drive(DRIVER, lines)
     if model is not None:
         for l, a, b in zip(lines, impl, model):
